@@ -174,3 +174,10 @@ def histogram(part, c):
 
 describe = base.describe
 PARTS = [Part("stops", "c10", "lifecycle", gen, project=base.project, nontrivial=nontrivial, describe=describe)]
+
+# ---- composed model (Model/VscLifecycle.v = Lifecycle x Vsc): theorems in Props/C11System.v, part "system" in harness/c11sys/part.py
+EXTRA_PROPS = ["C11System"]
+import importlib.util as _ilu, os as _os
+_spec = _ilu.spec_from_file_location("c11sys_part", _os.path.join(_os.path.dirname(_os.path.abspath(__file__)), "..", "..", "harness", "c11sys", "part.py"))
+_c11sys = _ilu.module_from_spec(_spec); _spec.loader.exec_module(_c11sys)
+PARTS.append(_c11sys.PART)
